@@ -490,21 +490,23 @@ def cli_widths(res):
                 continue
             base = build([L.line_text(prog, idxs) for idxs in L.canonical_lines(prog, True)])
             for w in [None] + list(range(9)):
-                n += 1
-                path = os.path.join(d, 'c%d.p8' % n)
-                p8file.to_file(carts.make_game({}, version=33, code_lines=[base]), path)
-                args = ['luafmt'] + ([] if w is None else ['--indentwidth', str(w)]) + [path]
-                res.evaluations += 1
-                case = {'src': base, 'width': w, 'variant': 'cli'}
-                try:
-                    rc_ = tool.main(args)
-                    out = b''.join(p8file.from_file(os.path.join(d, 'c%d_fmt.p8' % n)).lua.to_lines())
-                except Exception as e:
-                    res.violation('C10|cli|raise|%s' % type(e).__name__, 'p8tool %r raised %r' % (args[:-1], e), case)
-                    continue
-                res.nontriv(('cli', base, w))
-                if check_output_shape(prog, base, out, 2 if w is None else w, res, case, 'cli-width-%s' % w):
-                    res.outcome(('cli', w))
+                # the cart as .p8 and as .p8.png (each format has its own writer glue)
+                for ext in ('.p8', '.p8.png'):
+                    n += 1
+                    path = os.path.join(d, 'c%d%s' % (n, ext))
+                    p8file.to_file(carts.make_game({}, version=33, code_lines=[base]), path)
+                    args = ['luafmt'] + ([] if w is None else ['--indentwidth', str(w)]) + [path]
+                    res.evaluations += 1
+                    case = {'src': base, 'width': w, 'variant': 'cli'}
+                    try:
+                        rc_ = tool.main(args)
+                        out = b''.join(p8file.from_file(os.path.join(d, 'c%d_fmt%s' % (n, ext))).lua.to_lines())
+                    except Exception as e:
+                        res.violation('C10|cli|raise|%s' % type(e).__name__, 'p8tool %r raised %r' % (args[:-1], e), case)
+                        continue
+                    res.nontriv(('cli', base, w, ext))
+                    if check_output_shape(prog, base, out, 2 if w is None else w, res, case, 'cli-width-%s%s' % (w, '' if ext == '.p8' else '-png')):
+                        res.outcome(('cli', w, ext))
     finally:
         shutil.rmtree(d, ignore_errors=True)
 
